@@ -544,9 +544,18 @@ func (e *cacheEngine) histLines() {
 	if n := ctx.Res.Distribution["cache.hist.text-hide.mask-written-after-clear"]; n < 4 {
 		ctx.Res.Fail(fmt.Sprintf("lost evidence: only %d histories of the hiding text encoder wrote a hidden tag after a Clear", n))
 	}
+	// positive control of the alias bookkeeping, on a writer of the harness's own (whether the LIBRARY's binary writer
+	// keeps its array across Clear is its business: both answers satisfy C20, the overwrite is only counted above)
+	{
+		arr := []byte{1, 2, 3, 4}
+		v := &histView{slice: arr[:4], copy: append([]byte{}, arr...), cleared: true}
+		copy(arr, []byte{9, 9}) // "Clear + encode" into the same array
+		if bytes.Equal(v.slice, v.copy) {
+			ctx.Res.Fail("cache: the alias bookkeeping does not see a view being overwritten (harness defect)")
+		}
+	}
 	if ctx.Res.Distribution["cache.alias.overwritten-after-clear.ttlv"] == 0 {
-		// positive control of the alias bookkeeping: the documented overwrite must have been observed at least once
-		ctx.Res.Fail("lost evidence: the alias bookkeeping never observed Bytes() being overwritten after Clear (binary encoder)")
+		ctx.Res.Count("cache.alias.overwrite-after-clear-never-observed.ttlv")
 	}
 }
 
